@@ -120,6 +120,13 @@ def day (t : Nat) : Nat := t / 1440
 def prefixDays (s e : Nat) : List Nat :=
   if day e < day s then [] else (List.range (day e - day s + 1)).map (day s + ·)
 
+/-- l.278 as it stands in the source: `range(<day difference> + k)` with the difference counted as
+`PlaybackModel.Source.dayCountKind` says; the theorems need (calendar, 1) (`prefixDaysSrc_eq`) -/
+def prefixDaysSrc (s e : Nat) : List Nat :=
+  match PlaybackModel.Source.dayCountKind with
+  | .calendar => if day e < day s then [] else (List.range (day e - day s + PlaybackModel.Source.dayCountPlus)).map (day s + ·)
+  | .elapsed => if e < s then [] else (List.range ((e - s) / 1440 + PlaybackModel.Source.dayCountPlus)).map (day s + ·)
+
 /-- l.278 before F7: `range((end - start).days + 1)` counts whole 24 h periods -/
 def prefixDaysUnfixed (s e : Nat) : List Nat :=
   if e < s then [] else (List.range ((e - s) / 1440 + 1)).map (day s + ·)
